@@ -32,6 +32,7 @@ from elementpath.xpath_nodes import ElementNode, DocumentNode, XPathNode, Attrib
     NamespaceNode
 from elementpath.sequences import xlist
 from elementpath.sequence_types import is_instance
+from elementpath.decoder import get_atomic_sequence
 from elementpath.xpath_context import XPathSchemaContext
 from elementpath.xpath_tokens import XPathToken, XPathFunction, XPathConstructor
 
@@ -783,7 +784,11 @@ def select__element_kind_test(self: XPathFunction, context: ta.ContextType = Non
             elif isinstance(item, ElementNode):
                 type_annotation = self[1].name
                 if item.nilled:
-                    if self[1].occurrence in ('*', '?'):
+                    # no typed value to test: the prototype values of the node's type stand for it
+                    if self[1].occurrence in ('*', '?') and (
+                            item.type_name == type_annotation or
+                            any(is_instance(v, type_annotation, self.parser) for v in
+                                get_atomic_sequence(getattr(item, 'xsd_type', None)))):
                         yield item
                 elif item.type_name == type_annotation:
                     if type_annotation != XSD_UNTYPED:
